@@ -29,7 +29,14 @@ RULE = (
     "[0, 2^32); the first cases of every run are pinned to seed 0 as int / numpy.int64 / Generator and to None).  A second small stream has duplicated alternatives or strategies that leave a non-best "
     "alternative no room (refusal expected since F8; run in a child process under a 20 s alarm).  Every case is run by two checkers "
     "built with equal seeds, the first of which evaluates twice; all three runs must apply identical noises and matrices "
-    "(not demanded for random_state=None, where the draws are reproduced from a clone of the checker's own generator).  Non-trivial: at least two mutants were evaluated or the call was (rightly) refused.  Distinct by case hash."
+    "(not demanded for random_state=None, where the draws are reproduced from a clone of the checker's own generator).  A third stream, "
+    "a fixed share of every run (24 quick / 240 thorough, the kinds below in rotation, allow_missing_alternatives alternating), has "
+    "alternative labels that are whole numbers >= 1000 (never a position): a python list of ints, numpy int64 / int32 arrays, an "
+    "object array of python ints, bases 1000 / 2000 / 10^6 / 2^31-100 / 2^53+1 / 2^62 (same number of digits within a case), or a "
+    "python list mixing ints (python / numpy) and strings (which the constructor turns into strings); every label the experiment "
+    "reports (names 'M.<alt>[_k]', method strings, e_.rrt1.mutated, the alternatives and missing alternatives of every ranking, "
+    "the labels of every mutant matrix) is compared type-preservingly (G.lab: 101 is not 101.0 and not '101') with the label the "
+    "decision matrix holds for the alternative whose row really changed.  Non-trivial: at least two mutants were evaluated or the call was (rightly) refused.  Distinct by case hash."
 )
 ASSUMPTIONS = [
     "Generator.uniform(0, b) == b * Generator.random() draw for draw: the draws are reproduced from numpy.random.default_rng(seed) "
@@ -167,9 +174,65 @@ def _case(rng, zero=False):
     }
 
 
+LABEL_KINDS = ["pyint", "npint64", "npint32", "objint", "mixed", "pyint", "npint64", "mixed-np"]
+LABEL_BASES = [1000, 2000, 10 ** 6, 2 ** 31 - 100, 2 ** 53 + 1, 2 ** 62]
+
+
+def _relabel(rng, case, kind):
+    """whole-number alternative labels (>= 1000: never a position; one number of digits per case).  `alternatives` keeps the
+    str() of every label (what names and method strings are made of, and what the model works on); `alt_labels` says what is
+    handed to mkdm: kind 'pyint' python list of ints | 'npint64' / 'npint32' numpy array | 'objint' object array of python
+    ints | 'mixed' python list of ints and strings | 'mixed-np' the same with numpy.int64 members"""
+    d = case["dm"]
+    n = len(d["alternatives"])
+    base = rng.choice(LABEL_BASES[:4] if kind == "npint32" else LABEL_BASES)
+    values = [base + i for i in rng.sample(range(3 * n), n)]
+    if kind in ("mixed", "mixed-np"):
+        strs = rng.sample(range(n), rng.randint(1, n - 1))
+        for i in strs:
+            values[i] = d["alternatives"][i]
+    d["alt_labels"] = {"kind": kind, "values": values}
+    d["alternatives"] = [str(v) for v in values]
+    return case
+
+
+def _alt_objects(d):
+    """the alternative labels as they are handed to mkdm"""
+    spec = d.get("alt_labels")
+    if not spec:
+        return list(d["alternatives"])
+    kind, values = spec["kind"], spec["values"]
+    if kind == "npint64":
+        return np.array(values, dtype=np.int64)
+    if kind == "npint32":
+        return np.array(values, dtype=np.int32)
+    if kind == "objint":
+        out = np.empty(len(values), dtype=object)
+        out[:] = [int(v) for v in values]
+        return out
+    if kind == "mixed-np":
+        return [v if isinstance(v, str) else np.int64(v) for v in values]
+    return list(values)
+
+
+def _mkdm(d):
+    """the DecisionMatrix of the case, with the labels of `alt_labels` when present"""
+    spec = d.get("alt_labels")
+    if not spec:
+        return G.mkdm(d)
+    alts = _alt_objects(d)
+    if spec["kind"] in ("pyint", "npint64", "npint32"):
+        # through the shared builder (a third of the cases are selected out of a reordered matrix): list of typed scalars
+        return G.mkdm(dict(d, alternatives=list(alts)))
+    import skcriteria as skc
+
+    return skc.mkdm(np.array(d["matrix"], dtype=float), G.objective_aliases(d), weights=np.array(d["weights"], dtype=float),
+                    alternatives=alts, criteria=list(d["criteria"]))
+
+
 def gen(ctx):
     rng = ctx.rng
-    n_main, n_zero = ctx.n(110, 3000), ctx.n(10, 100)
+    n_main, n_zero, n_lab = ctx.n(110, 3000), ctx.n(10, 100), ctx.n(24, 240)
     cases = [_case(rng) for _ in range(n_main)]
     # falsy / boundary forms of the seed are present in every run, whatever the stream drew
     pinned = [(0, "int"), (0, "npint"), (0, "generator"), (None, "none"), (0, "npint32"), (1, "int"), (2 ** 32 - 1, "npint")]
@@ -179,6 +242,12 @@ def gen(ctx):
     step = max(1, n_main // n_zero)
     for i in range(n_zero):
         cases.insert(min(len(cases), i * (step + 1)), _case(rng, zero=True))
+    # whole-number / mixed alternative labels: a fixed share of every run, every kind in rotation (drawn after everything else,
+    # so the streams above are what they were)
+    for i in range(n_lab):
+        c = _relabel(rng, _case(rng), LABEL_KINDS[i % len(LABEL_KINDS)])
+        c["allow"] = (i // len(LABEL_KINDS)) % 2 == 0
+        cases.append(c)
     return cases
 
 
@@ -266,6 +335,7 @@ class _Recorder:
             "objectives": [int(x) for x in d["objectives"]],
             "weights": [float(x) for x in d["weights"]],
             "alternatives": [str(a) for a in d["alternatives"]],
+            "alternatives_lab": [G.lab(a) for a in d["alternatives"]],
             "criteria": [str(c) for c in d["criteria"]],
             "dtypes": [str(t) for t in d["dtypes"]],
         })
@@ -277,7 +347,7 @@ class _Recorder:
             self.inner_error = f"{type(e).__name__}: {e}"[:200]
             raise
         self.answers.append({"method": str(res.method), "alts": [str(a) for a in res.alternatives],
-                             "values": [int(v) for v in res.values]})
+                             "alts_lab": [G.lab(a) for a in res.alternatives], "values": [int(v) for v in res.values]})
         return res
 
     def __repr__(self):
@@ -302,6 +372,9 @@ def _ranks_out(rc):
             "values": [int(v) for v in r.values],
             "iteration": None if info.iteration is None else int(info.iteration),
             "mutated": None if info.mutated is None else str(info.mutated),
+            "mutated_lab": None if info.mutated is None else G.lab(info.mutated),
+            "alts_lab": [G.lab(a) for a in r.alternatives],
+            "missing_lab": [G.lab(a) for a in info.missing_alternatives],
             "noise": None if noise is None else [float(x) for x in noise.to_numpy()],
             "noise_index": None if noise is None else [str(c) for c in noise.index],
             "missing": [str(a) for a in info.missing_alternatives],
@@ -316,7 +389,7 @@ def _one_run(case, again=False):
 
     from skcriteria.cmp import RankInvariantChecker
 
-    dm = G.mkdm(case["dm"])
+    dm = _mkdm(case["dm"])
     rec = _Recorder(_build_maker(case["dmaker"]))
     seed = _random_state_arg(case)
     out = {}
@@ -357,6 +430,7 @@ def _one_run(case, again=False):
     out["original"] = {k: (np.asarray(v, dtype=float).tolist() if k in ("matrix", "weights") else
                            [int(x) for x in v] if k == "objectives" else [str(x) for x in v])
                        for k, v in dm.to_dict().items()}
+    out["original"]["alternatives_lab"] = [G.lab(x) for x in dm.alternatives]
     return out
 
 
@@ -495,7 +569,8 @@ def _mutants(case, run):
     orig = run["seen"][0]
     out = []
     for s in run["seen"][1:]:
-        same_meta = all(s[k] == orig[k] for k in ("objectives", "weights", "alternatives", "criteria", "dtypes")) and \
+        same_meta = all(s.get(k) == orig.get(k) for k in ("objectives", "weights", "alternatives", "alternatives_lab", "criteria",
+                                                          "dtypes")) and \
             len(s["matrix"]) == len(orig["matrix"])
         diff = [i for i, (r, r0) in enumerate(zip(s["matrix"], orig["matrix"])) if r != r0] if same_meta else None
         out.append({"same_meta": same_meta, "diff": diff, "matrix": s["matrix"]})
@@ -618,7 +693,8 @@ def requests(case, obs):
     if order is None:
         return []
     reqs = [{"op": "rrt1", "dm": _dmj(case["dm"]), "order": order, "draws": C.rats(obs["draws"]), "repeat": case["repeat"],
-             "strategy": case["strategy"], "results": a["answers"], "allow": case["allow"]}]
+             "strategy": case["strategy"], "results": [{k: x[k] for k in ("method", "alts", "values")} for x in a["answers"]],
+             "allow": case["allow"]}]
     if a["outcome"] == "ok":
         exps = []
         for s, r in zip(a["seen"][1:], a["ranks"][1:]):
@@ -672,9 +748,12 @@ def judge(case, obs, replies):
     # ---- first evaluation on the untouched matrix
     o = a["original"]
     s0 = a["seen"][0] if a["seen"] else None
-    if s0 is None or any(s0[k] != o[k] for k in ("matrix", "objectives", "weights", "alternatives", "criteria")):
-        prop("the first evaluation is not on the untouched matrix", o, s0)
+    if s0 is None or any(s0.get(k) != o.get(k) for k in ("matrix", "objectives", "weights", "alternatives", "alternatives_lab",
+                                                         "criteria")):
+        prop("the first evaluation is not on the untouched matrix (cells, objectives, weights, labels with their types)", o, s0)
         return out
+    # the label the decision matrix holds for every alternative, value and type (G.lab), by its str()
+    held = dict(zip(full, o.get("alternatives_lab") or full))
     # ---- every clause about the mutants, the count and the outcome, for the order that explains the run
     order, problems = _explain(case, a)
     if order is None:
@@ -704,6 +783,14 @@ def judge(case, obs, replies):
                 prop(f"ranking {t}: missing alternatives are not appended (sorted) with the worst rank + 1",
                      {"alts": palts, "values": pvalues, "missing": missing},
                      {"alts": r["alts"], "values": r["values"], "missing": r["missing"]})
+            elif "alts_lab" in r and "alts_lab" in ans:
+                # the same, value AND type of every label: what the decision maker answered, then the missing alternatives
+                # as the decision matrix holds them
+                plabs, mlabs = ans["alts_lab"] + [held[x] for x in missing], [held[x] for x in missing]
+                if r["alts_lab"] != plabs or r["missing_lab"] != mlabs:
+                    prop(f"ranking {t}: the alternatives of the returned ranking are not the labels (value and type) the decision "
+                         f"maker ranked followed by the missing alternatives of the matrix",
+                         {"alts": plabs, "missing": mlabs}, {"alts": r["alts_lab"], "missing": r["missing_lab"]})
             if t == 0:
                 if r["method"] != ans["method"]:
                     prop("method name of the original ranking changed", ans["method"], r["method"])
@@ -712,6 +799,9 @@ def judge(case, obs, replies):
             if r["mutated"] != alt or r["iteration"] != it:
                 prop(f"ranking {t} is labelled ({r['mutated']!r}, {r['iteration']}), the experiment is ({alt!r}, {it})")
                 continue
+            if "mutated_lab" in r and r["mutated_lab"] != held[alt]:
+                prop(f"ranking {t}: e_.rrt1.mutated is not the label of the alternative whose row changed (value and type)",
+                     held[alt], r["mutated_lab"])
             if r["method"] != f"{ans['method']}+RRT1+{alt}_{it}":
                 prop("method name of a mutant ranking", f"{ans['method']}+RRT1+{alt}_{it}", r["method"])
             if r["noise_index"] != case["dm"]["criteria"]:
@@ -801,6 +891,10 @@ def tags(case, obs):
         msg = a.get("msg", "")
         t.append("refused:" + ("missing-alternative" if msg.startswith("Missing") else
                                "negative-bound(numpy)" if "high - low" in msg else "no-room"))
+    t.append("labels:" + (case["dm"].get("alt_labels") or {"kind": "str"})["kind"])
+    if a.get("original") and a["original"].get("alternatives_lab"):
+        t.append("held-labels:" + "+".join(sorted({"int" if x.startswith("int:") else "str"
+                                                    for x in a["original"]["alternatives_lab"]})))
     objs = case["dm"]["objectives"]
     t.append("objs:" + ("mixed" if len(set(objs)) > 1 else "max" if objs[0] == 1 else "min"))
     if a["answers"]:
